@@ -167,6 +167,19 @@ class NameGen:
     def boolexpr(self, d, bound):
         rng = self.rng
         m = rng.random()
+        if d > 0 and bound and m < 0.12:
+            # the bound variable compared with an operand that mentions it only under a nested macro, a map
+            # literal or a list literal (an optimiser hoisting that operand would evaluate it in the wrong scope)
+            v = rng.choice(sorted(bound))
+            w = rng.choice([n for n in NAMES if n != v] or NAMES)
+            inner = rng.choice([
+                ('idx', ('macro', 'map', ('list', [('id', v)]), w, [('id', w)]), ('lit', I(0))),
+                ('idx', ('map', [(('lit', S('k')), ('id', v))]), ('lit', S('k'))),
+                ('call', 'size', [('macro', 'filter', ('list', [('id', v), ('lit', I(1))]), w, [('bin', '==', ('id', w), ('id', v))])]),
+                ('idx', ('list', [('lit', I(0)), ('id', v)]), ('lit', I(1))),
+                ('cond', ('macro', 'exists', ('list', [('lit', I(1))]), w, [('bin', '==', ('id', w), ('id', v))]), ('id', v), ('lit', I(-7))),
+            ])
+            return ('bin', '==', ('id', v), inner) if rng.random() < 0.5 else ('bin', '==', inner, ('id', v))
         if d <= 0 or m < 0.4:
             return ('bin', rng.choice(['<', '==', '>=', '!=']), self.intexpr(d - 1, bound), self.intexpr(d - 1, bound))
         v = rng.choice(NAMES)
